@@ -374,7 +374,7 @@ Lemma handle_consts s e :
   let s1 := fst (handle_ev s e) in
   s_now s1 = s_now s /\ s_T s1 = s_T s /\ s_ka s1 = s_ka s /\ s_act s1 = s_act s.
 Proof.
-  destruct e; cbn [handle_ev]; unfold on_established, on_closed, on_open, sub_opened, activity, add_chan;
+  destruct e; cbn [handle_ev]; unfold on_established, on_closed, on_open, on_open_full, sub_opened, activity, add_chan;
     dmatch; st_simpl; cbn [fst]; st_simpl; auto.
 Qed.
 
@@ -417,6 +417,12 @@ Proof.
   - dmatch; cbn [fst]; st_simpl; auto.
   - cbn [fst]. st_simpl. auto.
   - dmatch; cbn [fst]; st_simpl; auto.
+  - (* EOpenFull *) unfold on_open_full. destruct (find_ctx p (s_ctxs s)) as [cx|]; [|cbn [fst]; auto].
+    destruct (h_act (c_prim cx) || (0 <? strong s (h_id (c_prim cx)))); cbn [andb fst]; [|auto].
+    st_simpl. destruct (s_ka s) eqn:KA.
+    + st_simpl. unfold activity. st_simpl.
+      destruct (kfind (p, h_id (c_prim cx)) (s_last s)); st_simpl; auto.
+    + st_simpl. auto.
 Qed.
 
 (* ------------------------------------------------------------------ C09: tracker invariant *)
@@ -499,7 +505,7 @@ Qed.
 
 Lemma handle_no_down s e p c : ~ In (ODown p c) (snd (handle_ev s e)).
 Proof.
-  destruct e; cbn [handle_ev]; unfold on_established, on_closed, on_open;
+  destruct e; cbn [handle_ev]; unfold on_established, on_closed, on_open, on_open_full;
     dmatch; cbn [snd In]; intuition discriminate.
 Qed.
 
@@ -546,7 +552,7 @@ Lemma handle_ctxs_noka s e :
   s_ka s = false -> (forall p c, e <> EEst p c) -> (forall p c, e <> EClosed p c) ->
   s_ctxs (fst (handle_ev s e)) = s_ctxs s /\ ka_activity_of s e = None.
 Proof.
-  intros KA N1 N2. destruct e; cbn [handle_ev ka_activity_of]; unfold on_open, sub_opened;
+  intros KA N1 N2. destruct e; cbn [handle_ev ka_activity_of]; unfold on_open, on_open_full, sub_opened;
     rewrite ?KA, ?andb_false_r; st_simpl; rewrite ?KA;
     try (exfalso; eapply N1; reflexivity); try (exfalso; eapply N2; reflexivity);
     dmatch; cbn [fst]; st_simpl; rewrite ?KA in *; try discriminate;
@@ -603,22 +609,50 @@ Proof.
   intros H. destruct (DO H) as [k [_ E]]. eauto.
 Qed.
 
-Lemma handle_ret s e :
-  (ret_ids (snd (handle_ev s e)) = [] /\ s_next s <= s_next (fst (handle_ev s e))) \/
-  (ret_ids (snd (handle_ev s e)) = [s_next s] /\ s_next (fst (handle_ev s e)) = s_next s + 1).
+(* how the shared counter moves in one handler: by d <= draw_of e, modulo 2^64; an id is returned
+   only when exactly one is drawn, and it is the counter's value before *)
+Lemma handle_draw s e :
+  s_next s < ID_MOD ->
+  exists d, d <= draw_of e /\
+            s_next (fst (handle_ev s e)) = (s_next s + d) mod ID_MOD /\
+            (ret_ids (snd (handle_ev s e)) = [] \/
+             (ret_ids (snd (handle_ev s e)) = [s_next s] /\ d = 1)).
 Proof.
-  destruct e; cbn [handle_ev]; unfold on_established, on_closed, on_open, sub_opened;
-    dmatch; cbn [fst snd ret_ids flat_map app]; st_simpl;
-    rewrite ?activity_next, ?add_chan_next; st_simpl; rewrite ?activity_next, ?add_chan_next;
-    try (left; split; [reflexivity | lia]); try (right; split; reflexivity).
+  intros LT.
+  assert (Z : forall s1 os, s_next s1 = s_next s -> ret_ids os = [] ->
+              exists d, d <= draw_of e /\ s_next s1 = (s_next s + d) mod ID_MOD /\
+                        (ret_ids os = [] \/ (ret_ids os = [s_next s] /\ d = 1))).
+  { intros s1 os H1 H2. exists 0. rewrite N.add_0_r, N.mod_small by exact LT.
+    split; [apply N.le_0_l|]. split; [exact H1 | left; exact H2]. }
+  destruct e; cbn [handle_ev]; unfold on_established, on_closed, sub_opened;
+    try (dmatch; cbn [fst snd]; (apply Z; [st_simpl; rewrite ?activity_next, ?add_chan_next; st_simpl;
+                                            rewrite ?activity_next, ?add_chan_next; reflexivity | reflexivity])).
+  - (* EOpen *)
+    unfold on_open. destruct (find_ctx p (s_ctxs s)) as [cx|]; [|cbn [fst snd]; apply Z; reflexivity].
+    destruct (h_act (c_prim cx) || (0 <? strong s (h_id (c_prim cx)))); [|cbn [fst snd]; apply Z; reflexivity].
+    cbn [fst snd draw_of]. exists 1. split; [apply N.le_refl|]. split.
+    + st_simpl. destruct (s_ka s); st_simpl; rewrite ?activity_next; reflexivity.
+    + right. split; reflexivity.
+  - (* EBump *)
+    cbn [fst snd draw_of]. exists n. split; [apply N.le_refl|]. split; [reflexivity | left; reflexivity].
+  - (* EOpenFull *)
+    unfold on_open_full. destruct (find_ctx p (s_ctxs s)) as [cx|]; [|cbn [fst snd]; apply Z; reflexivity].
+    destruct (h_act (c_prim cx) || (0 <? strong s (h_id (c_prim cx)))); [|cbn [fst snd]; apply Z; reflexivity].
+    cbn [fst snd draw_of]. exists 1. split; [apply N.le_refl|]. split.
+    + st_simpl. destruct (s_ka s); st_simpl; rewrite ?activity_next; reflexivity.
+    + left. reflexivity.
 Qed.
 
-Lemma step_ret s dt e :
-  (ret_ids (snd (step s dt e)) = [] /\ s_next s <= s_next (fst (step s dt e))) \/
-  (ret_ids (snd (step s dt e)) = [s_next s] /\ s_next (fst (step s dt e)) = s_next s + 1).
+Lemma step_draw s dt e :
+  s_next s < ID_MOD ->
+  exists d, d <= draw_of e /\
+            s_next (fst (step s dt e)) = (s_next s + d) mod ID_MOD /\
+            (ret_ids (snd (step s dt e)) = [] \/
+             (ret_ids (snd (step s dt e)) = [s_next s] /\ d = 1)).
 Proof.
-  unfold step. set (s0 := with_now s (s_now s + dt)).
-  pose proof (handle_ret s0 e) as HR. destruct (handle_ev s0 e) as [s1 o1]. cbn [fst snd] in HR.
+  intros LT. unfold step. set (s0 := with_now s (s_now s + dt)).
+  assert (LT0 : s_next s0 < ID_MOD) by exact LT.
+  pose proof (handle_draw s0 e LT0) as HR. destruct (handle_ev s0 e) as [s1 o1]. cbn [fst snd] in HR.
   set (sm := match ka_activity_of s0 e with
              | Some k => with_act s1 (kset k (s_now s1) (s_act s1)) | None => s1 end).
   assert (NM : s_next sm = s_next s1) by (subst sm; destruct (ka_activity_of s0 e); reflexivity).
@@ -631,20 +665,104 @@ Proof.
   subst s0. st_simpl. exact HR.
 Qed.
 
+Lemma step_next_lt s dt e : s_next s < ID_MOD -> s_next (fst (step s dt e)) < ID_MOD.
+Proof.
+  intros LT. destruct (step_draw s dt e LT) as [d [_ [E _]]]. rewrite E.
+  apply N.mod_lt. discriminate.
+Qed.
+
+(* the counter does not wrap in this step *)
+Definition nowrap1 (s : st) (e : ev) : Prop := s_next s + draw_of e < ID_MOD.
+
+Lemma step_ret s dt e :
+  nowrap1 s e ->
+  (ret_ids (snd (step s dt e)) = [] /\ s_next s <= s_next (fst (step s dt e))) \/
+  (ret_ids (snd (step s dt e)) = [s_next s] /\ s_next (fst (step s dt e)) = s_next s + 1).
+Proof.
+  intros NW. unfold nowrap1 in NW.
+  assert (LT : s_next s < ID_MOD) by lia.
+  destruct (step_draw s dt e LT) as [d [D [E R]]].
+  rewrite N.mod_small in E by lia.
+  destruct R as [R|[R ->]]; [left | right]; split; auto; lia.
+Qed.
+
+(* a history in which the counter never wraps *)
+Fixpoint nowrap (s : st) (tr : list (N * ev)) : Prop :=
+  match tr with
+  | [] => True
+  | (dt, e) :: t => nowrap1 s e /\ nowrap (fst (step s dt e)) t
+  end.
+
 Lemma ids_sorted tr : forall s,
+  nowrap s tr ->
   StronglySorted N.lt (ret_ids (concat (run s tr))) /\
   Forall (fun i => s_next s <= i) (ret_ids (concat (run s tr))).
 Proof.
-  induction tr as [|[dt e] tr IH]; intros s; cbn [run].
+  induction tr as [|[dt e] tr IH]; intros s NW; cbn [run].
   - cbn. split; constructor.
-  - pose proof (step_ret s dt e) as SR. destruct (step s dt e) as [s' os]. cbn [fst snd] in SR.
+  - cbn [nowrap] in NW. destruct NW as [NW1 NW2].
+    pose proof (step_ret s dt e NW1) as SR. destruct (step s dt e) as [s' os]. cbn [fst snd] in *.
     cbn [concat]. unfold ret_ids in *. rewrite flat_map_app.
-    destruct (IH s') as [S F].
+    destruct (IH s' NW2) as [S F].
     destruct SR as [[R N]|[R N]]; rewrite R; cbn [app].
     + split; [exact S|]. eapply Forall_impl; [|exact F]. cbn. intros a Ha. lia.
     + split.
       * constructor; [exact S|]. eapply Forall_impl; [|exact F]. cbn. intros a Ha. lia.
       * constructor; [lia|]. eapply Forall_impl; [|exact F]. cbn. intros a Ha. lia.
+Qed.
+
+(* ---- uniqueness across the wrap: in any history that draws at most 2^64 identifiers in total
+        (sum of draw_of over its inputs), no returned identifier repeats ---- *)
+Fixpoint draws (tr : list (N * ev)) : N :=
+  match tr with [] => 0 | (_, e) :: t => draw_of e + draws t end.
+
+Lemma mod_window_inj b x y w :
+  x < y -> y < w -> w <= ID_MOD -> (b + x) mod ID_MOD <> (b + y) mod ID_MOD.
+Proof.
+  intros XY YW WM E.
+  assert (MZ : ID_MOD <> 0) by discriminate.
+  pose proof (N.div_mod (b + x) ID_MOD MZ) as Dx. pose proof (N.div_mod (b + y) ID_MOD MZ) as Dy.
+  rewrite E in Dx. set (r := (b + y) mod ID_MOD) in *. set (qx := (b + x) / ID_MOD) in *.
+  set (qy := (b + y) / ID_MOD) in *.
+  assert (Hd : y - x = ID_MOD * qy - ID_MOD * qx) by lia.
+  assert (qx < qy) by (destruct (N.lt_ge_cases qx qy) as [L|G]; [exact L|]; assert (ID_MOD * qy <= ID_MOD * qx) by (apply N.mul_le_mono_l; exact G); lia).
+  assert (ID_MOD * (qx + 1) <= ID_MOD * qy) by (apply N.mul_le_mono_l; lia). lia.
+Qed.
+
+Lemma ids_offsets tr : forall s b o,
+  s_next s = (b + o) mod ID_MOD ->
+  exists offs, ret_ids (concat (run s tr)) = map (fun x => (b + x) mod ID_MOD) offs /\
+               StronglySorted N.lt offs /\
+               Forall (fun x => o <= x /\ x < o + draws tr) offs.
+Proof.
+  induction tr as [|[dt e] tr IH]; intros s b o H; cbn [run draws].
+  - exists []. cbn. repeat split; constructor.
+  - assert (LT : s_next s < ID_MOD) by (rewrite H; apply N.mod_lt; discriminate).
+    destruct (step_draw s dt e LT) as [d [D [E R]]].
+    destruct (step s dt e) as [s' os]. cbn [fst snd concat] in *.
+    assert (H' : s_next s' = (b + (o + d)) mod ID_MOD).
+    { rewrite E, H, N.add_mod_idemp_l by discriminate. f_equal. lia. }
+    destruct (IH s' b (o + d) H') as [offs [O1 [O2 O3]]].
+    unfold ret_ids in *. rewrite flat_map_app, O1.
+    destruct R as [R|[R ->]]; rewrite R; cbn [app].
+    + exists offs. split; [reflexivity|]. split; [exact O2|].
+      eapply Forall_impl; [|exact O3]. cbn. intros a [A1 A2]. lia.
+    + exists (o :: offs). split; [cbn [map]; rewrite H; reflexivity|]. split.
+      * constructor; [exact O2|]. eapply Forall_impl; [|exact O3]. cbn. intros a [A1 A2]. lia.
+      * constructor; [lia|]. eapply Forall_impl; [|exact O3]. cbn. intros a [A1 A2]. lia.
+Qed.
+
+Lemma ids_unique_mod tr s :
+  s_next s < ID_MOD -> draws tr <= ID_MOD -> NoDup (ret_ids (concat (run s tr))).
+Proof.
+  intros LT DR.
+  assert (H : s_next s = (s_next s + 0) mod ID_MOD) by (rewrite N.add_0_r, N.mod_small; auto).
+  destruct (ids_offsets tr s (s_next s) 0 H) as [offs [O1 [O2 O3]]]. rewrite O1.
+  clear O1 H. induction O2 as [|x l SS IH FA]; cbn [map]; [constructor|].
+  inversion O3; subst. constructor; [|apply IH; assumption].
+  intros C. apply in_map_iff in C. destruct C as [y [E Hy]].
+  rewrite Forall_forall in FA, H2. specialize (FA y Hy). destruct (H2 y Hy) as [_ Y2].
+  symmetry in E. revert E. apply (mod_window_inj (s_next s) x y (0 + draws tr)); lia.
 Qed.
 
 (* ------------------------------------------------------------------ C08: the connection view *)
@@ -932,6 +1050,16 @@ Proof.
   - dmatch; cbn [fst snd]; st_simpl; (split; [exact INV | intros q; reflexivity]).
   - cbn [fst snd]; st_simpl; (split; [exact INV | intros q; reflexivity]).
   - dmatch; cbn [fst snd]; st_simpl; (split; [exact INV | intros q; reflexivity]).
+  - (* EOpenFull *)
+    unfold on_open_full. destruct (find_ctx p (s_ctxs s)) as [cx|] eqn:F; [|split; [exact INV | intros q; reflexivity]].
+    destruct (h_act (c_prim cx) || (0 <? strong s (h_id (c_prim cx))));
+      [|split; [exact INV | intros q; reflexivity]].
+    cbn [fst snd]. split; [|intros q; reflexivity].
+    pose proof (find_ctx_peer _ _ _ F) as PE.
+    st_simpl. destruct (s_ka s); st_simpl; rewrite ?activity_ctxs, ?activity_pend; st_simpl; [|exact INV].
+    eapply conn_inv_same; [| intros x Hx; exact Hx | exact INV].
+    intros q. unfold conn_ids. rewrite find_set_ctx. cbn [c_peer].
+    destruct (p =? q) eqn:E; [|reflexivity]. apply N.eqb_eq in E. subst q. rewrite F. reflexivity.
 Qed.
 
 Lemma ev_ok_now cap e s v i : ev_ok cap e (with_now s v) i = ev_ok cap e s i.
@@ -1012,7 +1140,7 @@ Lemma handle_cmd s i c id :
   exists p cx, i = EOpen p /\ find_ctx p (s_ctxs s) = Some cx /\ c = h_id (c_prim cx) /\ id = s_next s /\
                In (ORet 0 id) (snd (handle_ev s i)).
 Proof.
-  destruct i; cbn [handle_ev]; unfold on_established, on_closed;
+  destruct i; cbn [handle_ev]; unfold on_established, on_closed, on_open_full;
     try (dmatch; cbn [snd In]; intuition discriminate).
   unfold on_open. destruct (find_ctx p (s_ctxs s)) as [cx|] eqn:F; [|cbn [snd In]; intuition discriminate].
   destruct (h_act (c_prim cx) || (0 <? strong s (h_id (c_prim cx)))); [|cbn [snd In]; intuition discriminate].
